@@ -85,6 +85,11 @@ def run(ctx):
                     a = dict(G.shape_args(rng, name), degree=deg) if name != "invrect" else {"degree": deg, "delta": 2.0, "kappa": 3, "epsilon": 0.1}
                     cases.append({"fn": "gen", "name": name, "args": G.enc_args(a), "ensure_bounded": rng.random() < 0.7, "return_scale": rng.random() < 0.5,
                                   "chebyshev_basis": cheb, "timeout": 300, "expect": "ok", "float_degree": True})
+        # 1/x with a small binomial parameter b = int(kappa^2 log(kappa/eps)): the truncation index j0 reaches b (empty tail sums)
+        for kappa, eps in ((1.5, 0.3), (1.25, 0.1), (1.4, 0.05), (1.2, 0.3), (1.1, 0.2), (1.05, 0.1)):
+            for cheb in (True, False):
+                cases.append({"fn": "gen", "name": "invert", "args": G.enc_args({"kappa": kappa, "epsilon": eps}), "ensure_bounded": rng.random() < 0.5,
+                              "return_scale": rng.random() < 0.5, "chebyshev_basis": cheb, "timeout": 300, "expect": "ok"})
     impl = run_impl(cases, timeout=3000)
     lines, keep = [], []
     for c, r in zip(cases, impl):
